@@ -35,7 +35,22 @@ open Gen.C04 Aegean.Model.C04 Aegean.Spec.C04 Aegean.C04Canon Aegean.C04Real Aeg
     clear denominators (`sx ≠ 0`, `sy ≠ 0`, `amp ≠ 0` are in context), then commutative-ring
     normalisation.  Nothing here knows the shape of the Python expression. -/
 macro "c04_algebra" : tactic =>
-  `(tactic| first | (field_simp; done) | (field_simp; ring) | ring | (field_simp; ring_nf; done))
+  `(tactic| first
+      | (field_simp; done)
+      | (field_simp; ring)
+      | ring
+      | (field_simp; ring_nf; done)
+      | (norm_num; field_simp; ring)
+      | (norm_num; field_simp; done))
+
+/-- the same inside the argument of `exp`: normalise both sides as commutative-ring expressions
+    (decimal literals such as `-0.5` are evaluated by `norm_num` first when present) -/
+macro "c04_normalise" : tactic =>
+  `(tactic| first
+      | (ring_nf; done)
+      | (norm_num; ring_nf; done)
+      | (norm_num; done)
+      | (field_simp; ring_nf; done))
 
 /-! ### Obligations on the regenerated arithmetic
 
@@ -45,14 +60,14 @@ macro "c04_algebra" : tactic =>
 theorem gauss_eq_canon (x y amp xo yo sx sy th : ℝ) :
     gauss x y amp xo yo sx sy th = G x y amp xo yo sx sy th := by
   simp only [gauss, r_add, r_sub, r_mul, r_div, r_neg, r_radians, R.real_sin, R.real_cos, R.real_exp,
-    R.real_npow, R.real_ofNat, R.real_pi, Nat.cast_ofNat, Nat.cast_one]
+    R.real_npow, R.real_ofNat, R.real_ofSci, R.real_pi, Nat.cast_ofNat, Nat.cast_one]
   unfold G E U W rad
-  ring_nf
+  c04_normalise
 
 theorem dmds_eq_canon (x y amp xo yo sx sy th : ℝ) (hamp : amp ≠ 0) :
     D_amp x y amp xo yo sx sy th = dmds x y amp xo yo sx sy th := by
   simp only [dmds, r_add, r_sub, r_mul, r_div, r_neg, r_radians, R.real_sin, R.real_cos, R.real_exp,
-    R.real_npow, R.real_ofNat, R.real_pi, Nat.cast_ofNat, Nat.cast_one]
+    R.real_npow, R.real_ofNat, R.real_ofSci, R.real_pi, Nat.cast_ofNat, Nat.cast_one]
   rw [gauss_eq_canon]
   unfold D_amp G
   c04_algebra
@@ -60,7 +75,7 @@ theorem dmds_eq_canon (x y amp xo yo sx sy th : ℝ) (hamp : amp ≠ 0) :
 theorem dmdxo_eq_canon (x y amp xo yo sx sy th : ℝ) (hsx : sx ≠ 0) (hsy : sy ≠ 0) :
     D_xo x y amp xo yo sx sy th = dmdxo x y amp xo yo sx sy th := by
   simp only [dmdxo, r_add, r_sub, r_mul, r_div, r_neg, r_radians, R.real_sin, R.real_cos, R.real_exp,
-    R.real_npow, R.real_ofNat, R.real_pi, Nat.cast_ofNat, Nat.cast_one]
+    R.real_npow, R.real_ofNat, R.real_ofSci, R.real_pi, Nat.cast_ofNat, Nat.cast_one]
   rw [gauss_eq_canon]
   unfold D_xo U W rad
   c04_algebra
@@ -68,7 +83,7 @@ theorem dmdxo_eq_canon (x y amp xo yo sx sy th : ℝ) (hsx : sx ≠ 0) (hsy : sy
 theorem dmdyo_eq_canon (x y amp xo yo sx sy th : ℝ) (hsx : sx ≠ 0) (hsy : sy ≠ 0) :
     D_yo x y amp xo yo sx sy th = dmdyo x y amp xo yo sx sy th := by
   simp only [dmdyo, r_add, r_sub, r_mul, r_div, r_neg, r_radians, R.real_sin, R.real_cos, R.real_exp,
-    R.real_npow, R.real_ofNat, R.real_pi, Nat.cast_ofNat, Nat.cast_one]
+    R.real_npow, R.real_ofNat, R.real_ofSci, R.real_pi, Nat.cast_ofNat, Nat.cast_one]
   rw [gauss_eq_canon]
   unfold D_yo U W rad
   c04_algebra
@@ -76,7 +91,7 @@ theorem dmdyo_eq_canon (x y amp xo yo sx sy th : ℝ) (hsx : sx ≠ 0) (hsy : sy
 theorem dmdsx_eq_canon (x y amp xo yo sx sy th : ℝ) (hsx : sx ≠ 0) :
     D_sx x y amp xo yo sx sy th = dmdsx x y amp xo yo sx sy th := by
   simp only [dmdsx, r_add, r_sub, r_mul, r_div, r_neg, r_radians, R.real_sin, R.real_cos, R.real_exp,
-    R.real_npow, R.real_ofNat, R.real_pi, Nat.cast_ofNat, Nat.cast_one]
+    R.real_npow, R.real_ofNat, R.real_ofSci, R.real_pi, Nat.cast_ofNat, Nat.cast_one]
   rw [gauss_eq_canon]
   unfold D_sx U rad
   c04_algebra
@@ -84,7 +99,7 @@ theorem dmdsx_eq_canon (x y amp xo yo sx sy th : ℝ) (hsx : sx ≠ 0) :
 theorem dmdsy_eq_canon (x y amp xo yo sx sy th : ℝ) (hsy : sy ≠ 0) :
     D_sy x y amp xo yo sx sy th = dmdsy x y amp xo yo sx sy th := by
   simp only [dmdsy, r_add, r_sub, r_mul, r_div, r_neg, r_radians, R.real_sin, R.real_cos, R.real_exp,
-    R.real_npow, R.real_ofNat, R.real_pi, Nat.cast_ofNat, Nat.cast_one]
+    R.real_npow, R.real_ofNat, R.real_ofSci, R.real_pi, Nat.cast_ofNat, Nat.cast_one]
   rw [gauss_eq_canon]
   unfold D_sy W rad
   c04_algebra
@@ -94,7 +109,7 @@ theorem dmdsy_eq_canon (x y amp xo yo sx sy th : ℝ) (hsy : sy ≠ 0) :
 theorem dmdtheta_eq_canon (x y amp xo yo sx sy th : ℝ) (hsx : sx ≠ 0) (hsy : sy ≠ 0) :
     D_theta x y amp xo yo sx sy th = dmdtheta x y amp xo yo sx sy th := by
   simp only [dmdtheta, r_add, r_sub, r_mul, r_div, r_neg, r_radians, R.real_sin, R.real_cos, R.real_exp,
-    R.real_npow, R.real_ofNat, R.real_pi, Nat.cast_ofNat, Nat.cast_one]
+    R.real_npow, R.real_ofNat, R.real_ofSci, R.real_pi, Nat.cast_ofNat, Nat.cast_one]
   rw [gauss_eq_canon]
   unfold D_theta U W rad
   c04_algebra
